@@ -55,6 +55,16 @@ pub enum Op {
     /// kind 0 `guard` (a no-op without the heap), 1 `unguard` (pure bookkeeping), 2 `clear`,
     /// 3 `len`/`is_empty`. All four are legal and must not touch the freed arena.
     Orphan(u32, u32, u8),
+    /// `guard.guard(h)` / `guard.unguard(&h)` with a handle whose object was reclaimed. While the
+    /// slot is free both are no-ops (unguard returns false). Once the slot has a new tenant they
+    /// act on that tenant (recorded finding KF-C13-2): generated histories skip that case, the
+    /// witness sets `stale_guard_on_reused_slot`.
+    GuardStale(u32, u32),
+    UnguardStale(u32, u32),
+    /// guard up to b%48 live handles into one guard (large root buffers)
+    GuardMany(u32, u32),
+    /// create n%40 guards, give each a root, then drop them all (fills the guard-storage pool)
+    GuardBurst(u32, u32),
 }
 
 #[derive(Clone, Debug, Serialize, Deserialize)]
@@ -67,6 +77,9 @@ pub struct Scn {
     /// observation. Used for histories that drop the heap while handles and guards survive.
     #[serde(default)]
     pub isolated: bool,
+    /// perform GuardStale / UnguardStale even when the stale handle's slot has a new tenant
+    #[serde(default)]
+    pub stale_guard_on_reused_slot: bool,
 }
 
 pub struct C13 {
@@ -140,6 +153,7 @@ struct MNode {
     edges: Vec<usize>,
     reclaimed: bool,
     heap_gen: u32,
+    slot: usize,
 }
 
 struct Sim {
@@ -387,7 +401,19 @@ impl Check for C13 {
             if with_heap_drop { 2 } else { 0 }, // DropHeap
             if with_heap_drop { 3 } else { 0 }, // NewHeap
             if with_heap_drop { 4 } else { 0 }, // Orphan
+            if stale_ops { 4 } else { 0 },      // GuardStale
+            if stale_ops { 4 } else { 0 },      // UnguardStale
+            2,                                  // GuardMany
+            1,                                  // GuardBurst
         ];
+        if rng.chance(0.15) {
+            // guard storm: many guards come and go (guard-storage pool of 16), some with many roots
+            w[0] = 25;
+            w[1] = 22;
+            w[5] = 14;
+            w[21] = 8;
+            w[22] = 6;
+        }
         if rng.chance(0.15) {
             // disable a random kind
             let k = rng.below(w.len());
@@ -420,7 +446,11 @@ impl Check for C13 {
                 15 => Op::ReadAll,
                 16 => Op::DropHeap,
                 17 => Op::NewHeap,
-                _ => Op::Orphan(a, b, rng.below(4) as u8),
+                18 => Op::Orphan(a, b, rng.below(4) as u8),
+                19 => Op::GuardStale(a, b),
+                20 => Op::UnguardStale(a, b),
+                21 => Op::GuardMany(a, b),
+                _ => Op::GuardBurst(a, b),
             };
             ops.push(op);
         }
@@ -433,6 +463,7 @@ impl Check for C13 {
             initial_threshold: *rng.pick(&thresholds),
             dense_checks: !long,
             isolated: false,
+            stale_guard_on_reused_slot: false,
         }
     }
 
@@ -495,6 +526,10 @@ impl Check for C13 {
                 Op::CreateGuard => {
                     if let Some(h) = s.heap.as_ref() {
                         let g = h.create_guard();
+                        if g.len() != 0 || !g.is_empty() {
+                            let l = g.len();
+                            s.fail("new_guard_not_empty", format!("len {}", l), json!({"at_op": at}));
+                        }
                         s.rguards.push(Some(g));
                         s.guards.push(Some((s.heap_gen, Vec::new())));
                         let _ = write!(s.trace, "G{};", s.guards.len() - 1);
@@ -587,6 +622,7 @@ impl Check for C13 {
                         edges: Vec::new(),
                         reclaimed: false,
                         heap_gen: s.heap_gen,
+                        slot: obj.verif_slot(),
                     });
                     if let Some((_, roots)) = s.guards[g].as_mut() {
                         roots.push(id);
@@ -667,6 +703,82 @@ impl Check for C13 {
                         );
                     }
                     let _ = write!(s.trace, "R{}-{}:{};", g, id, found);
+                }
+                Op::GuardStale(a, b) | Op::UnguardStale(a, b) => {
+                    let gs = s.live_guards();
+                    // stale handles of the CURRENT heap whose object the collector reclaimed
+                    let hs: Vec<usize> = s
+                        .stale_handles()
+                        .into_iter()
+                        .filter(|&h| s.handles[h].is_some_and(|id| s.nodes[id].heap_gen == s.heap_gen && s.nodes[id].reclaimed))
+                        .collect();
+                    if gs.is_empty() || hs.is_empty() || s.heap.is_none() {
+                        continue;
+                    }
+                    let g = gs[*a as usize % gs.len()];
+                    let h = hs[*b as usize % hs.len()];
+                    let slot = s.rhandles[h].as_ref().unwrap().verif_slot();
+                    let occupied = s.nodes.iter().any(|n| !n.reclaimed && n.heap_gen == s.heap_gen && n.slot == slot);
+                    if occupied && !scn.stale_guard_on_reused_slot {
+                        s.rep.bump("stale_guard_op_skipped_slot_has_new_tenant", 1);
+                        continue;
+                    }
+                    if occupied {
+                        s.rep.bump("stale_guard_op_on_reused_slot", 1);
+                    } else {
+                        s.rep.bump("stale_guard_op_on_free_slot", 1);
+                    }
+                    let id = s.handles[h].unwrap();
+                    if matches!(op, Op::GuardStale(..)) {
+                        let gc = s.rhandles[h].as_ref().unwrap().clone();
+                        s.rguards[g].as_ref().unwrap().guard(gc);
+                        let _ = write!(s.trace, "RS{}+{};", g, id);
+                    } else {
+                        let found = s.rguards[g].as_ref().unwrap().unguard(s.rhandles[h].as_ref().unwrap());
+                        if found {
+                            s.fail("unguard_of_dead_object_found_a_root", format!("guard {} node {}", g, id), json!({"at_op": at, "guard": g, "node": id, "slot_has_new_tenant": occupied}));
+                        }
+                        let _ = write!(s.trace, "RS{}-{}:{};", g, id, found);
+                    }
+                    // the model does not change: a dead object cannot be rooted or un-rooted
+                }
+                Op::GuardMany(a, b) => {
+                    let gs = s.live_guards();
+                    let hs = s.live_handles();
+                    if gs.is_empty() || hs.is_empty() {
+                        continue;
+                    }
+                    let g = gs[*a as usize % gs.len()];
+                    let n = (*b as usize % 48).min(hs.len());
+                    for k in 0..n {
+                        let h = hs[(*b as usize + k * 7) % hs.len()];
+                        let id = s.handles[h].unwrap();
+                        let gc = s.rhandles[h].as_ref().unwrap().clone();
+                        s.rguards[g].as_ref().unwrap().guard(gc);
+                        s.guards[g].as_mut().unwrap().1.push(id);
+                    }
+                    let _ = write!(s.trace, "RM{}x{};", g, n);
+                }
+                Op::GuardBurst(a, b) => {
+                    let hs = s.live_handles();
+                    let Some(heap) = s.heap.as_ref() else { continue };
+                    let n = 1 + (*a as usize % 40);
+                    let mut tmp = Vec::new();
+                    for k in 0..n {
+                        let g = heap.create_guard();
+                        if !hs.is_empty() {
+                            // temporary extra roots of live objects: no effect on reachability once dropped
+                            let h = hs[(*b as usize + k) % hs.len()];
+                            g.guard(s.rhandles[h].as_ref().unwrap().clone());
+                        }
+                        tmp.push(g);
+                    }
+                    drop(tmp);
+                    s.rep.bump("guard_bursts", 1);
+                    if n > 16 {
+                        s.rep.bump("guard_pool_boundary_crossed", 1);
+                    }
+                    let _ = write!(s.trace, "GB{};", n);
                 }
                 Op::ClearGuard(a) => {
                     let gs = s.any_guards();
